@@ -26,7 +26,7 @@ ASSUMPTIONS = [
     "with trailing bytes after an RTU frame the served payload must be the prefix of response_data() (the library's "
     "trim keeps the trailing bytes; sensors address the payload by offset)",
 ]
-MUST = ["aa55_read_length_independent_of_count", "aa55_sum_ge_8000", "aa55_sum_ge_10000", "rtu_trailing", "end_to_end_success", "negative_write_echo", "overlapping_tcp_inverters", "same_object_sequences", "consecutive_slow_or_identical_answers", "requests_from_a_new_event_loop", "write_ack_payload_checked", "answer_from_another_comm_address",
+MUST = ["single_value_entry_points", "aa55_read_length_independent_of_count", "aa55_sum_ge_8000", "aa55_sum_ge_10000", "rtu_trailing", "end_to_end_success", "negative_write_echo", "overlapping_tcp_inverters", "same_object_sequences", "consecutive_slow_or_identical_answers", "requests_from_a_new_event_loop", "write_ack_payload_checked", "answer_from_another_comm_address",
         "accepted_rtu", "accepted_tcp", "accepted_aa55"]
 EXHAUSTIVE = {"quick": False, "thorough": False}
 CLASSES = ["random", "ff", "00", "7f80", "fe", "aa55"]
@@ -152,6 +152,7 @@ def end_to_end(spec, part):
         framing = rnd.choice(("rtu", "tcp", "aa55"))
         cls = rnd.choice(CLASSES)
         trailing = b""
+        public = None
         if framing == "aa55":
             plen = rnd.choice((0, 1, 64, 142, 200, 254, 255, rnd.randrange(256)))
             pl = payload_bytes(rnd, plen, cls)
@@ -162,10 +163,20 @@ def end_to_end(spec, part):
             kind = rnd.choice(("read", "read", "write", "multi"))
             d = {"framing": framing, "kind": kind, "comm": 0xF7, "reg": rnd.choice((rnd.randrange(65536), rnd.randrange(65536), rnd.randrange(0x300), 0, 0x0136))}
             if kind == "read":
-                d["count"] = rnd.choice((1, 2, 33, 125, rnd.randrange(1, 126)))
+                d["count"] = rnd.choice((1, 1, 2, 33, 125, rnd.randrange(1, 126)))
                 pl = payload_bytes(rnd, 2 * d["count"], cls)
                 step = ["read", d["reg"], d["count"]]
                 want = pl
+                if d["count"] == 1 and rnd.random() < 0.7:
+                    # the same answer taken through the single-value entry points of the inverter classes (each family has its own copy)
+                    fam_ = rnd.choice(("ET", "DT", "ES")) if framing == "rtu" else rnd.choice(("ET", "DT"))
+                    d["comm"] = {"ET": 0xF7, "DT": 0x7F, "ES": 0xF7}[fam_]
+                    step = ["api", rnd.choice(("read_setting", "read_sensor") if fam_ != "ES" else ("read_setting",)), f"modbus-{d['reg']}"]
+                    if fam_ != "ES" and rnd.random() < 0.6:     # ... and named one-register items (they take the classes' own helper)
+                        step = rnd.choice((["api", "read_sensor", "vpv1"], ["api", "read_sensor", "ipv1"], ["api", "read_setting", "grid_export_limit"] if fam_ == "ET"
+                                           else ["api", "read_sensor", "vgrid1" if fam_ == "DT" else "vpv2"]))
+                    want = None
+                    public = fam_
             elif kind == "write":
                 d["value"] = rnd.choice((-1, -32768, 32767, rnd.randrange(-32768, 32768)))
                 pl = None
@@ -179,10 +190,13 @@ def end_to_end(spec, part):
                 want = None
             frame = rc.rtu_response(d, pl) if framing == "rtu" else rc.tcp_response(d, pl)
             if framing == "rtu" and rnd.random() < 0.4:
-                trailing = rnd.choice((b"\x00", frame, b"\xff\xff\xff"))
+                trailing = rnd.choice((b"\x00", frame, b"\xff\xff\xff", b"\x00\x00", bytes(rnd.randrange(256) for _ in range(rnd.randrange(1, 8)))))
                 frame += trailing
         sc = {"transport": "tcp" if framing == "tcp" else "udp", "framing": framing, "keep_alive": rnd.random() < 0.5,
               "T": 1, "R": 1, "frame": frame.hex(), "tasks": [{"start": 0.0, "steps": [step]}]}
+        if public:
+            sc["family"] = public
+            part.count("single_value_entry_points")
         run = engine.run_scenario(sc, peer_factory=ServePeer, quiesce=False)
         part.evaluations += 1
         part.see(f"e2e|{framing}|{step[0]}|{cls}|{bool(trailing)}")
@@ -194,7 +208,7 @@ def end_to_end(spec, part):
                          f"{step[:2]} served {frame.hex()[:80]} (class {cls}): outcome {rec['outcome'] if rec else run.stop}, {ntx} transmissions", case)
             continue
         part.count("end_to_end_success")
-        if want is None and framing != "aa55":
+        if want is None and framing != "aa55" and not public:
             # a write / write-multi acknowledgement echoes register and value (count): what is handed to the caller must still end
             # with that echo, whatever the register address is
             got = bytes.fromhex(rec["result"]["raw"])
